@@ -18,6 +18,7 @@ package builder
 
 import (
 	"errors"
+	"maps"
 
 	"seehuhn.de/go/pdf"
 	"seehuhn.de/go/pdf/graphics"
@@ -63,5 +64,6 @@ func (b *Builder) DrawInlineImageRaw(dict pdf.Dict, data []byte) {
 		b.Err = err
 		return
 	}
-	b.emit(content.OpInlineImage, dict, pdf.String(data))
+	// copy the dict and the data, so that the caller can reuse them
+	b.emit(content.OpInlineImage, maps.Clone(dict), pdf.String(append([]byte{}, data...)))
 }
